@@ -249,6 +249,95 @@ def gen_json(r, idx, scale):
     return out
 
 
+# Member NAMES holding raw 0x00 bytes.  json_find compares each top-level name
+# with the NUL-terminated key byte by byte; a name that is the whole key (or a
+# prefix of it) followed by a raw NUL meets the key's terminator, and nothing
+# beyond that terminator may be read (the key block is exactly strlen+1 bytes).
+NUL_KEYS = [b'', b'a', b'ab', b'abc', b'key_0189', b'k' * 7, b'k' * 8, b'k' * 15, b'k' * 16,
+            b'q' * 40, b'a"b', b'\\', b'a\nb', b'x/y\tz', b'\xc3\xa9t\xc3\xa9']
+JESC = {0x22: b'\\"', 0x5c: b'\\\\', 0x08: b'\\b', 0x0c: b'\\f', 0x0a: b'\\n', 0x0d: b'\\r', 0x09: b'\\t'}
+
+
+def jraw(name):
+    """A JSON string token for these bytes; 0x00 (and other bytes) stay raw."""
+    return b'"' + b''.join(JESC.get(c, bytes([c])) for c in name) + b'"'
+
+
+def nul_names(K, r=None):
+    """Decoded member names with raw NULs, relative to the searched key K."""
+    n = len(K)
+    out = [K + b'\0', K + b'\0\0', K + b'\0x', K + b'\0' + K, K + b'\0' * 8, K + b'\0' + b'y' * 20,
+           K + b'\0' + K + b'\0', K + b'\0"', K + b'\0\\', K + b'\0\0\0' + K, b'\0' + K, b'\0', b'\0\0',
+           b'\0' + K + b'\0', K + b'x\0', K + K + b'\0']
+    js = range(n) if n <= 8 else sorted({0, 1, 2, n // 2, n - 2, n - 1})
+    for j in js:
+        out += [K[:j] + b'\0', K[:j] + b'\0' + K[j:], K[:j] + b'\0' + K[j + 1:], K[:j] + b'\0\0',
+                K[:j] + b'\0' + K[j:] + b'\0']
+    if r is not None:
+        out = [r.choice(out) for _ in range(6)] + \
+            [K + b'\0' + rbytes(r, r.randrange(0, 12)), K[:r.randrange(n + 1)] + b'\0' * r.randrange(1, 4)]
+    seen, res = set(), []
+    for x in out:
+        if x not in seen and x != K:
+            seen.add(x)
+            res.append(x)
+    return res
+
+
+def gen_jsonnul(r, idx, scale):
+    out = []
+
+    def add(buf, key):
+        c = mk('json', 'J %s %s' % (hx(buf), hx(key)), True)
+        c['fam'] = 'json_member_name_with_raw_NUL'
+        out.append(c)
+
+    if idx < 3:
+        for K in NUL_KEYS[idx::3]:
+            k = jraw(K)
+            for N in nul_names(K):
+                n = jraw(N)
+                docs = [b'{' + n + b':1}', b' { ' + n + b' : 1 } ', b'{"p":0,' + n + b':1}',
+                        b'{' + n + b':1,"z":[1,2]}', b'{"p":{"q":1},' + n + b':"v",' + k + b':2}',
+                        b'{' + k + b':0,' + n + b':1}', b'{"o":{' + n + b':1},\n' + n + b':{' + n + b':2}}',
+                        b'{' + n + b':1,' + n + b':2,' + k + b':3}']
+                for d in docs:
+                    add(d, K)
+                for kk in (ABSENT, K[:-1], K + b'x', K + K, N.split(b'\0')[0]):
+                    if kk != K:
+                        add(docs[0], kk)
+                        add(docs[4], kk)
+            # every truncation of documents whose name is key + NUL (+ more)
+            for N in (K + b'\0', K + b'\0x', K[:len(K) // 2] + b'\0'):
+                d = b'{"p":0,' + jraw(N) + b' :1,' + k + b':2}'
+                for L in range(len(d)):
+                    add(d[:L], K)
+        return out
+    # random documents with such a member before / between / after other members
+    maxd = r.choice([1, 2, 3])
+    for _ in range(20 * scale):
+        for _ in range(20):
+            K = jstring(r)[1]
+            if K is not None and b'\0' not in K:
+                break
+        else:
+            K = b'k'
+        for N in nul_names(K, r):
+            mem = [jstring(r)[0] + jws(r) + b':' + jws(r) + jvalue(r, 1, maxd)
+                   for _ in range(r.choice([0, 1, 2, 3, 5]))]
+            pos = r.randrange(len(mem) + 1)
+            mem.insert(pos, jraw(N) + jws(r) + b':' + jws(r) + jvalue(r, 1, maxd))
+            if r.random() < 0.5:
+                mem.insert(r.randrange(len(mem) + 1), jraw(K) + jws(r) + b':' + jws(r) + jvalue(r, 1, maxd))
+            d = jws(r) + b'{' + jws(r) + (jws(r) + b',' + jws(r)).join(mem) + jws(r) + b'}' + jws(r)
+            add(d, K)
+            if r.random() < 0.4:
+                add(d, r.choice([ABSENT, K[:-1], K + b'x', N.split(b'\0')[0]]))
+            if r.random() < 0.3:
+                add(d[:r.randrange(len(d))], K)
+    return out
+
+
 # ---------------------------------------------------------------------------
 # base-64 / hex
 # ---------------------------------------------------------------------------
@@ -601,10 +690,68 @@ def gen_getopt(r, idx, scale):
     return out
 
 
+# Three-step sequences: a parse abandoned after k labels (for every k, so also
+# in the middle of each packed group), the argv freed, optreset, another argv.
+GO_PACKS = [b'-ab', b'-ba', b'-aab', b'-abab', b'-abba' * 2, b'-abfval', b'-afb', b'-abf', b'-abo', b'-aoarg',
+            b'-fab', b'-azb', b'-zab', b'-zz', b'-a=b', b'-ab-', b'-ab\xff', b'-abof', b'-bafo', b'-' + b'a' * 9,
+            b'-' + b'ab' * 20, b'-' + b'ab' * 20 + b'fv', b'-' + b'a' * 200, b'-a' + b'b' * 60 + b'oarg']
+GO_PRE = [[], [b'-a'], [b'--bar'], [b'-f', b'v'], [b'--foo=1'], [b'-b', b'--x', b'y', b'-ba']]
+GO_POST = [[], [b'file'], [b'-b'], [b'--', b'-ab'], [b'arg', b'-ab']]
+GO_ARGV2 = [[b'prog', b'-b'], [b'prog', b'file'], [b'prog', b'-z'], [b'prog', b'--bar'], [b'prog', b'-fval'],
+            [b'prog', b'-f'], [b'prog', b'-ba', b'x'], [b'p', b'--foo=1', b'-a'], [b'prog'], [], [b'prog', b'-'],
+            [b'prog', b'--'], [b'-a', b'-a'], [b'prog', b''], [b'/x/prog', b'-abfval', b'-o'], [b'prog', LONGOPT]]
+
+
+def gen_getopt_seq(r, idx, scale):
+    out = []
+
+    def t(av1, k, av2, tbl, err):
+        c = mk('getopt_reset', 'R %d %d %d %d %s' % (tbl, err, k, len(av1), ' '.join(hx(a) for a in av1 + av2)),
+               True)
+        c['line'] = c['line'].rstrip()
+        c['sig'] = sig64(c['line'])
+        out.append(c)
+
+    def ks(av1):
+        """every k up to past the last label (one label per character at most)."""
+        m = sum(max(1, len(a) - 1) for a in av1[1:]) + 1
+        if m <= 14:
+            return list(range(m + 1))
+        return sorted(set(list(range(7)) + [m // 2, m // 2 + 1, m - 3, m - 2, m - 1, m] +
+                          [r.randrange(m) for _ in range(4)]))
+
+    if idx < 4:
+        n = 0
+        for pack in GO_PACKS[idx::4]:
+            for pre in GO_PRE:
+                for post in (GO_POST if not pre else GO_POST[:2]):
+                    av1 = [b'prog'] + pre + [pack] + post
+                    for k in ks(av1):
+                        # all second command lines for the short ones, a rotating pair otherwise
+                        if not pre and not post and len(pack) <= 8:
+                            a2s = GO_ARGV2
+                        else:
+                            a2s = [GO_ARGV2[n % len(GO_ARGV2)], GO_ARGV2[(n // 3 + 1) % 3]]
+                        for av2 in a2s:
+                            n += 1
+                            t(av1, k, av2, n & 1, (n >> 1) & 1)
+                            if not pre and not post:
+                                t(av1, k, av2, 1 - (n & 1), (n >> 2) & 1)
+        return out
+    for _ in range(250 * scale):
+        av1 = [r.choice(GO_ARGV0)] + [r.choice(GO_TOK) if r.random() < 0.5 else r.choice(GO_PACKS)
+                                      for _ in range(r.choice([1, 1, 2, 2, 3, 4]))]
+        av2 = r.choice(GO_ARGV2) if r.random() < 0.5 else \
+            [r.choice(GO_ARGV0)] + [r.choice(GO_TOK + GO_PACKS) for _ in range(r.choice([0, 1, 1, 2, 3]))]
+        k = r.choice(ks(av1))
+        t(av1, k, av2, r.choice([0, 1]), r.choice([0, 1]))
+    return out
+
+
 # ---------------------------------------------------------------------------
 # Units, shards
 # ---------------------------------------------------------------------------
-GEN = {'json': gen_json, 'codec': gen_codec, 'num': gen_num, 'sock': gen_sock,
+GEN = {'json': gen_json, 'jsonnul': gen_jsonnul, 'goseq': gen_getopt_seq, 'codec': gen_codec, 'num': gen_num, 'sock': gen_sock,
        'deser': gen_deser, 'files': gen_files, 'getopt': gen_getopt}
 
 
@@ -618,6 +765,8 @@ def units(tier):
     u += [('deser', i, 1 if q else 10) for i in range(2 if q else 32)]
     u += [('files', i, 1 if q else 6) for i in range(6 if q else 40)]
     u += [('getopt', i, 1 if q else 8) for i in range(12 if q else 48)]
+    u += [('jsonnul', i, 1 if q else 4) for i in range(19 if q else 300)]
+    u += [('goseq', i, 1 if q else 6) for i in range(12 if q else 60)]
     return u
 
 
@@ -654,7 +803,13 @@ def judge(c, ans):
         STATS['getopt_returns:missing_arg'] += g[2]
         STATS['getopt_returns:default'] += g[3]
         path = 'errors' if (g[2] or g[3]) else 'clean'
+        m = re.search(r'it1=(\d+) mid=(\d+)', ans)
+        if m:
+            STATS['getopt_reset:sequences'] += 1
+            STATS['getopt_reset:abandoned_inside_packed_group'] += int(m.group(2))
     STATS['path:%s:%s' % (c['kind'], path)] += 1
+    if c.get('fam'):
+        STATS['family:' + c['fam']] += 1
     m = re.search(r'gai=(\d+)/(\d+)', ans)
     if m:
         STATS['getaddrinfo_calls'] += int(m.group(1))
@@ -749,7 +904,7 @@ def make_records(ctx, exe):
 # ---------------------------------------------------------------------------
 # Thorough extras: libFuzzer and valgrind
 # ---------------------------------------------------------------------------
-FUZZ_OPS = {'J': 0, 'D': 1, 'U': 2, 'H': 3, 'N': 4, 'S': 5, 'P': 6, 'Z': 7, 'A': 8, 'F': 9, 'T': 10}
+FUZZ_OPS = {'J': 0, 'D': 1, 'U': 2, 'H': 3, 'N': 4, 'S': 5, 'P': 6, 'Z': 7, 'A': 8, 'F': 9, 'T': 10, 'R': 11}
 
 
 def fuzz_seed_of(line):
@@ -779,6 +934,9 @@ def fuzz_seed_of(line):
         return bytes([8 if op == 'A' else 9]) + un(t[1])[:1200]
     if op == 'T':
         return bytes([10, int(t[1]) * 2 + int(t[2])]) + b'\0'.join(un(x)[:80] for x in t[3:])
+    if op == 'R' and len(t) - 5 <= 16:
+        return bytes([11, int(t[1]) * 2 + int(t[2]) + (min(int(t[3]), 63) << 2), int(t[4])]) + \
+            b'\0'.join(un(x)[:80] for x in t[5:])
     return None
 
 
